@@ -48,10 +48,10 @@ def rule_skip(F, R):
                          "other than the one a verdict was given for" % it.qname)
     # GUARD: the call happens iff is_dir is true
     item = F.find(WALKTREE_CANCEL)
-    I = W.new_interp(F)
+    I = W.new_interp(F, W.walkdir_stubs())
     for flag in (True, False):
         def run(flag=flag):
-            me = Adt("walk::WalkTree", "WalkTree", {"is_dir": flag, "input": Sym("input")})
+            me = W.walk_tree(F, I, is_dir=flag)
             return I.call_item(item, [Ref(Place(Cell(me)))])
         cases = I.explore(run)
         for c in cases:
@@ -72,18 +72,18 @@ def rule_isdir(F, R):
     }
     for name, mk in outcomes.items():
         for prev in (True, False):
-            stubs = {
-                "std::iter::Iterator::next": lambda I, a, fn, e, mk=mk: mk(),
+            stubs = W.walkdir_stubs(on_next=lambda I, f, mk=mk: mk())
+            stubs.update({
                 "walkdir::DirEntry::file_type": lambda I, a, fn, e: Sym("file_type(%s)" % _n(a[0])),
                 "std::fs::FileType::is_dir": lambda I, a, fn, e: Sym("is_dir(%s)" % _n(a[0])),
                 "<walk::WalkError as std::convert::From>::from": lambda I, a, fn, e: Sym("WalkError::from(%s)" % _n(a[0])),
-            }
+            })
             I = W.new_interp(F, stubs)
 
             def run(prev=prev):
-                me = Adt("walk::WalkTree", "WalkTree", {"is_dir": prev, "input": Sym("input")})
+                me = W.walk_tree(F, I, is_dir=prev)
                 res = I.call_item(item, [Ref(Place(Cell(me)))])
-                return Tup([res, me.fields["is_dir"]])
+                return Tup([res, strip(me).fields["is_dir"]])
             cases = I.explore(run)
             for c in cases:
                 inst = "next=%s,prev_is_dir=%s" % (name, prev)
